@@ -18,7 +18,7 @@ NA = {
 TEXT = {
  "C01": dict(
   technique="deterministic simulation: seeded delivery schedules of a generated block tree (valid / one-rule mutants / at-limit variants) into a real node, verdict oracle from a validity-by-construction reference world",
-  level="Seeded search over worlds (network parameter sets, block trees, ~45 single-rule mutations with their at-limit twins) and delivery schedules (in order, child-before-parent, duplicates, too-early timestamps, restarts, cache sizes, sig/hash cache on/off, skewed clock). Every delivered block's verdict and the node's resulting state are compared with the reference world after every event; thousands of distinct runs per minute. Sampling, not proof.",
+  level="Seeded search over worlds (network parameter sets, block trees, ~90 single-rule mutations with their at-limit / before-activation twins: sanity, header context, BIP34/65/66/68/112/113/141/341 activation edges, lock times, relative height and time locks, sigop and size limits, BIP30, witness commitments) and delivery schedules (in order, child-before-parent, duplicates, too-early timestamps, branches that overtake only with their last block, restarts, cache sizes, sig/hash cache on/off, skewed clock; one run in three on a difficulty-adjusting or BIP9-voting network). Every delivered block's verdict and the node's resulting state are compared with the reference world after every event; thousands of distinct runs per minute. Sampling, not proof.",
   note="Trusts the reference world's validity-by-construction (own UTXO fold, merkle, witness commitment, BIP34, BIP9 model, difficulty arithmetic); script semantics are not re-implemented; only accept/reject and error kind (rule vs internal) are compared, never error codes.",
   ref="DESIGN.md §5 C01"),
  "C02": dict(
@@ -28,7 +28,7 @@ TEXT = {
   ref="DESIGN.md §5 C02"),
  "C03": dict(
   technique="deterministic simulation: seeded connect/disconnect/reorg/flush/restart histories; UTXO set, spend journals and TotalTxns compared with an independent fold of the active chain",
-  level="At seeded quiescent points every outpoint the world ever produced (any branch, valid or not) is looked up and compared (amount, script, height, coinbase flag) with the model fold of the active chain; spend journals of all main-chain blocks and TotalTxns are compared; the same comparison runs after clean and no-flush restarts (persisted == in-memory) for cache sizes from 0 to 'never flush'.",
+  level="At seeded quiescent points every outpoint the world ever produced (any branch, valid or not) is looked up and compared (amount, script, height, coinbase flag) with the model fold of the active chain; spend journals of all main-chain blocks and TotalTxns are compared; the same comparison runs after clean and no-flush restarts and on fresh instances opened on clones of the database (persisted == in-memory) for cache sizes from 0 to 'never flush', on pruned and unpruned nodes.",
   note="Model fold is harness code; observer effect of FetchUtxoEntry on the cache is mitigated by also comparing on fresh instances after restarts.",
   ref="DESIGN.md §5 C03"),
  "C19": dict(
@@ -40,7 +40,7 @@ TEXT = {
 
 TEXT["C04"] = dict(
   technique="deterministic simulation with crash-point enumeration: a seeded block-delivery workload runs on an in-memory store with a commit log, then every prefix of its database commits is a crash point (plus crashes inside recovery); recovered state checked against the reference world",
-  level="For each sampled workload (extensions, side chains, reorganisations, invalid blocks, flushes, restarts, every UTXO-cache size) every database-commit prefix is enumerated as a crash point: reopen must succeed, the recovered tip must have been announced as active with its activating commit among the survivors, the UTXO set and spend journals must equal the fold of that tip, acknowledged blocks must still be known and byte-identical, and re-delivering the world must converge to the uninterrupted run's result; a seeded 40% crash again inside the recovery's own commits.",
+  level="For each sampled workload (extensions, side chains, reorganisations, invalid blocks, flushes, restarts, every UTXO-cache size) every database-commit prefix is enumerated as a crash point: reopen must succeed, the recovered tip must have been announced as active with its activating commit among the survivors, the UTXO set and spend journals must equal the fold of that tip, acknowledged blocks must still be known and byte-identical, and re-delivering the world must converge to the uninterrupted run's result; a seeded 40% crash again inside the recovery's own commits.  One crash run in three uses configuration B instead: real ffldb + goleveldb on a simulated disk, the crash at a seeded I/O call inside a delivery, process-crash and power-loss images (lost, reordered and torn unsynced writes).  One run in five is a pruned node.",
   note="Crash granularity is the database commit on the memdb stub (atomic, prefix-durable store assumed - that assumption is property C05's subject, decided by storesim on real ffldb). Known finding KF-C04-1 (stored-but-unconnected best block not activated after reopen) is reported as KNOWN-FINDING and additionally checked to converge after one more block.",
   ref="DESIGN.md §5 C04")
 
@@ -80,7 +80,7 @@ TEXT["C18"] = dict(
 
 TEXT["C05"] = dict(
   technique="deterministic simulation with fault enumeration: real ffldb + real goleveldb on a simulated disk (every I/O call an indexed fault point: error, short write, crash with process-crash or power-loss semantics), refinement against an in-memory reference database, porcupine for reader/writer isolation",
-  level="Seeded operation sequences (buckets, keys, cursors, blocks, regions, pruning, commits/rollbacks, reopen, cache/file-size knobs) are executed in lockstep with the reference model modeldb (fault-free refinement); for each sampled workload every I/O call index is made to fail in turn (complete enumeration for workloads up to 60 I/O calls in quick, 400 in thorough) and the store must be in the before- or after-state of the interrupted transaction; crashes at every enumerated I/O point (process crash and power loss, 20% with a second crash during reopen) must reopen to a prefix of the committed transactions no shorter than the last completed flush, byte-identical blocks; reader/writer interleavings are checked with porcupine.",
+  level="Seeded operation sequences (buckets, keys, cursors, blocks, regions, pruning, commits/rollbacks, reopen, cache/file-size knobs) are executed in lockstep with the reference model modeldb (fault-free refinement); for each sampled workload every I/O call index is made to fail in turn (complete enumeration for workloads up to 60 I/O calls in quick, 400 in thorough) and the store must be in the before- or after-state of the interrupted transaction; crashes at every enumerated I/O point (process crash and power loss, 20% with a second crash during reopen) must reopen to a prefix of the committed transactions no shorter than the last completed flush, byte-identical blocks; reader/writer interleavings (snapshots held across later commits and flushes, 2..60 keys, every access path with strict iteration order) are checked with porcupine; several writer goroutines contend for the write lock and must be serialised (no stale snapshot, no lost update, no bucket-id collision).",
   note="goleveldb runs in a deterministic configuration (L0 triggers raised, seek compaction off, 64 KiB write buffer) so that all I/O happens on the driver goroutine and fault indices replay; its own background-compaction configuration is not explored. Four remaining known findings (F-C05-1,3,7,8) are reported as KNOWN-FINDING.",
   ref="DESIGN.md §5 C05")
 
